@@ -546,6 +546,11 @@ func init() {
 				j.Workers = 8
 				j.MaxSymAlloc = 8
 			}
+			df := hj("C06.datafile", "H_C06_datafile", "real receiver with resume metadata whose data file is missing / shortened / intact: what it advertises to the sender")
+			df.Threads, df.TimersNeverFire, df.Workers, df.MaxPaths = true, true, 16, 5000000
+			df.EagerCalls = []string{"writeFileDone", "hashFileChunk"}
+			df.Preempt, df.PreemptAt = 1, "select"
+			js = append(js, df)
 			return js
 		},
 	})
